@@ -15,6 +15,30 @@ static TOP: [AtomicU32; 4] = [Z; 4];
 static BOTTOM: [AtomicU32; 4] = [Z; 4];
 static ENDED: [AtomicU32; 4] = [Z; 4];
 static ACTIVE: AtomicI32 = AtomicI32::new(0);
+/// set by the poller while it is inside poll() or inside the final drain of the cqueue
+static IN_POLL: std::sync::atomic::AtomicBool = std::sync::atomic::AtomicBool::new(false);
+/// bottom halves that started while the poller was not consuming an event
+static OUTSIDE: [AtomicU32; 4] = [Z; 4];
+
+/// set at the end of a Busy top half, i.e. right before its send
+static BUSY_DONE: std::sync::atomic::AtomicBool = std::sync::atomic::AtomicBool::new(false);
+
+/// first statement of every bottom half
+fn bottom_starts(i: usize) {
+    if !IN_POLL.load(Ordering::SeqCst) {
+        OUTSIDE[i].fetch_add(1, Ordering::SeqCst);
+    }
+    BOTTOM[i].fetch_add(1, Ordering::SeqCst);
+}
+
+fn check_outside(e: &Engine, n: usize) {
+    for i in 0..n {
+        let o = OUTSIDE[i].load(Ordering::SeqCst);
+        if o != 0 {
+            e.fail("bottom_without_event", &format!("arm {}: {} bottom half run(s) started while the poller was neither in poll() nor draining: no event of it was being consumed", i, o));
+        }
+    }
+}
 const MS: u64 = 1_000_000;
 
 struct ActiveGuard(usize);
@@ -32,6 +56,8 @@ pub enum Top {
     Sleep,
     Recv,
     Panic,
+    /// runs for a while without reaching a cancellation point (non-blocking operations of another primitive)
+    Busy,
 }
 
 fn top_half(t: Top, rx: Option<&mpsc::Receiver<u32>>) -> bool {
@@ -49,6 +75,14 @@ fn top_half(t: Top, rx: Option<&mpsc::Receiver<u32>>) -> bool {
         Top::Panic => {
             coroutine::yield_now();
             std::panic::panic_any(66u32)
+        }
+        Top::Busy => {
+            let s = may::sync::Semphore::new(0);
+            s.post();
+            s.post();
+            let r = s.try_wait();
+            BUSY_DONE.store(true, Ordering::SeqCst);
+            r
         }
     }
 }
@@ -78,7 +112,7 @@ fn poll_run(e: &'static Engine, workers: usize, poller_co: bool, tops: &'static 
                             }
                             TOP[i].fetch_add(1, Ordering::SeqCst);
                             es.send(es.get_token());
-                            BOTTOM[i].fetch_add(1, Ordering::SeqCst);
+                            bottom_starts(i);
                         }
                     });
                     if remove0 && i == 0 {
@@ -87,7 +121,9 @@ fn poll_run(e: &'static Engine, workers: usize, poller_co: bool, tops: &'static 
                 }
                 loop {
                     let t0 = may::verif::now();
+                    IN_POLL.store(true, Ordering::SeqCst);
                     let r = cq.poll(if timeout_ms == 0 { None } else { Some(Duration::from_millis(timeout_ms)) });
+                    IN_POLL.store(false, Ordering::SeqCst);
                     match r {
                         Ok(ev) => {
                             let t = ev.token;
@@ -119,10 +155,17 @@ fn poll_run(e: &'static Engine, workers: usize, poller_co: bool, tops: &'static 
                         }
                     }
                 }
+                // leaving the scope drains what is left
+                IN_POLL.store(true, Ordering::SeqCst);
             });
         }));
+        IN_POLL.store(false, Ordering::SeqCst);
         match r {
-            Ok(()) => {}
+            Ok(()) => {
+                if tops.contains(&Top::Panic) {
+                    e.fail("panic_not_reraised", "an arm panicked but neither poll() nor leaving the scope re-raised the panic in the poller");
+                }
+            }
             Err(p) => {
                 if p.downcast_ref::<u32>() == Some(&66) && tops.contains(&Top::Panic) {
                     out.push('P');
@@ -155,6 +198,7 @@ fn poll_run(e: &'static Engine, workers: usize, poller_co: bool, tops: &'static 
         e.fail("arm_still_running", "the cqueue scope returned while a select coroutine was still executing");
     }
     e.quiesce();
+    check_outside(e, tops.len());
     for i in 0..tops.len() {
         if (TOP[i].load(Ordering::SeqCst), BOTTOM[i].load(Ordering::SeqCst)) != snap[i] {
             e.fail("arm_still_running", &format!("arm {} ran after the cqueue scope had returned", i));
@@ -171,7 +215,8 @@ fn poll_run(e: &'static Engine, workers: usize, poller_co: bool, tops: &'static 
 }
 
 /// the same with the polling thread being the main thread (thread poller)
-fn poll_run_thread(e: &'static Engine, workers: usize, tops: &'static [Top], events: u32) {
+/// `at_send`: the removal of arm 0 waits until that arm's (Busy) top half is over, so that it meets the arm's send
+fn poll_run_thread(e: &'static Engine, workers: usize, tops: &'static [Top], events: u32, remove0: bool, at_send: bool) {
     rt_init(workers);
     e.begin();
     let mut consumed = [0u32; 4];
@@ -179,19 +224,28 @@ fn poll_run_thread(e: &'static Engine, workers: usize, tops: &'static [Top], eve
     cqueue::scope(|cq| {
         for (i, t) in tops.iter().enumerate() {
             let t = *t;
-            go!(cq, i, move |es| {
+            let sel = go!(cq, i, move |es| {
                 ACTIVE.fetch_add(1, Ordering::SeqCst);
                 let _g = ActiveGuard(i);
                 for _ in 0..events {
                     top_half(t, None);
                     TOP[i].fetch_add(1, Ordering::SeqCst);
                     es.send(es.get_token());
-                    BOTTOM[i].fetch_add(1, Ordering::SeqCst);
+                    bottom_starts(i);
                 }
             });
+            if remove0 && i == 0 {
+                if at_send {
+                    e.wait_flag(&BUSY_DONE);
+                }
+                sel.remove();
+            }
         }
         loop {
-            match cq.poll(None) {
+            IN_POLL.store(true, Ordering::SeqCst);
+            let r = cq.poll(None);
+            IN_POLL.store(false, Ordering::SeqCst);
+            match r {
                 Ok(ev) => {
                     let t = ev.token;
                     consumed[t] += 1;
@@ -211,9 +265,19 @@ fn poll_run_thread(e: &'static Engine, workers: usize, tops: &'static [Top], eve
                 Err(PollError::Timeout) => e.fail("timeout_early", "poll(None) reported Timeout"),
             }
         }
+        IN_POLL.store(true, Ordering::SeqCst);
     });
+    IN_POLL.store(false, Ordering::SeqCst);
+    e.quiesce();
+    check_outside(e, tops.len());
     for i in 0..tops.len() {
         let (t, b) = (TOP[i].load(Ordering::SeqCst), BOTTOM[i].load(Ordering::SeqCst));
+        if remove0 && i == 0 {
+            if b > t || b > consumed[i] + 1 {
+                e.fail("bottom_without_top", &format!("removed arm {}: top {} bottom {} consumed {}", i, t, b, consumed[i]));
+            }
+            continue;
+        }
         if t != events || b != events || consumed[i] != events {
             e.fail("event_lost", &format!("arm {}: top {} bottom {} consumed {} but {} events were due", i, t, b, consumed[i], events));
         }
@@ -281,8 +345,13 @@ pub fn build(quick: bool) -> Vec<Scenario> {
         v.push(Scenario::new("C16", "poll", format!("poll.co.yield_yield.x2.w{}", w), Arc::new(move |e| poll_run(e, w, true, &[Top::Yield, Top::Yield], 2, 0, false))));
         v.push(Scenario::new("C16", "poll", format!("poll.co.remove0.yield_yield.w{}", w), Arc::new(move |e| poll_run(e, w, true, &[Top::Yield, Top::Yield], 1, 0, true))));
         v.push(Scenario::new("C16", "poll", format!("poll.co.panic_yield.w{}", w), Arc::new(move |e| poll_run(e, w, true, &[Top::Panic, Top::Yield], 1, 0, false))));
-        v.push(Scenario::new("C16", "poll", format!("poll.thread.ready_yield.w{}", w), Arc::new(move |e| poll_run_thread(e, w, &[Top::Ready, Top::Yield], 1))));
-        v.push(Scenario::new("C16", "poll", format!("poll.thread.yield_yield.x2.w{}", w), Arc::new(move |e| poll_run_thread(e, w, &[Top::Yield, Top::Yield], 2))));
+        v.push(Scenario::new("C16", "poll", format!("poll.thread.ready_yield.w{}", w), Arc::new(move |e| poll_run_thread(e, w, &[Top::Ready, Top::Yield], 1, false, false))));
+        v.push(Scenario::new("C16", "poll", format!("poll.thread.yield_yield.x2.w{}", w), Arc::new(move |e| poll_run_thread(e, w, &[Top::Yield, Top::Yield], 2, false, false))));
+        // an arm that is removed (cancelled) while its top half is between cancellation points
+        v.push(Scenario::new("C16", "poll", format!("poll.thread.remove0.busy_yield.w{}", w), Arc::new(move |e| poll_run_thread(e, w, &[Top::Busy, Top::Yield], 1, true, false))));
+        v.push(Scenario::new("C16", "poll", format!("poll.thread.remove0_at_send.busy_yield.w{}", w), Arc::new(move |e| poll_run_thread(e, w, &[Top::Busy, Top::Yield], 1, true, true))));
+        v.push(Scenario::new("C16", "poll", format!("poll.co.remove0.busy_yield.w{}", w), Arc::new(move |e| poll_run(e, w, true, &[Top::Busy, Top::Yield], 1, 0, true))));
+        v.push(Scenario::new("C16", "poll", format!("poll.thread.busy_ready.w{}", w), Arc::new(move |e| poll_run_thread(e, w, &[Top::Busy, Top::Ready], 1, false, false))));
         v.push(Scenario::new("C16", "select", format!("select.recv_vs_yield.w{}", w), Arc::new(move |e| select_run(e, w, Top::Yield, false))));
         v.push(Scenario::new("C16", "select", format!("select.recv_vs_sleep.sent_first.w{}", w), Arc::new(move |e| select_run(e, w, Top::Sleep, true))).t2());
         v.push(Scenario::new("C16", "select", format!("select.recv_vs_ready.w{}", w), Arc::new(move |e| select_run(e, w, Top::Ready, false))));
